@@ -45,12 +45,16 @@ GraphSpec ==
       e2  |-> [gtype |-> "simple",    spec |-> <<"empty", "2">>,                n |-> 2, r |-> 0],
       t33 |-> [gtype |-> "simple",    spec |-> <<"torus", "3", "3">>,           n |-> 9, r |-> 0],
       k4p |-> [gtype |-> "simple",    spec |-> <<"empty", "4", "plantclique", "3">>, n |-> 4, r |-> 0],
+      g3s |-> [gtype |-> "simple",    spec |-> <<"grid", "3", "2", "splitedges", "2">>, n |-> 8, r |-> 0],
+      g4a |-> [gtype |-> "simple",    spec |-> <<"grid", "2", "2", "addedges", "1", "splitedges", "1">>, n |-> 5, r |-> 0],
+      bpa |-> [gtype |-> "bipartite", spec |-> <<"empty", "3", "3", "plantbiclique", "2", "2", "addedges", "2">>, n |-> 3, r |-> 3],
       b23 |-> [gtype |-> "bipartite", spec |-> <<"complete", "2", "3">>,        n |-> 2, r |-> 3],
       bsh |-> [gtype |-> "bipartite", spec |-> <<"shift", "3", "4", "1", "2">>, n |-> 3, r |-> 4],
       py2 |-> [gtype |-> "dag",       spec |-> <<"pyramid", "2">>,              n |-> 6, r |-> 0],
       pa3 |-> [gtype |-> "dag",       spec |-> <<"path", "3">>,                 n |-> 4, r |-> 0],
       tr2 |-> [gtype |-> "dag",       spec |-> <<"tree", "2">>,                 n |-> 7, r |-> 0] ]
 Simple == {"g4", "k3", "e2", "k4p"}
+Modified == {"g3s", "g4a"}          \* graphs built with random modifiers: only the saved file names them
 Bips   == {"b23", "bsh"}
 Dags   == {"py2", "pa3", "tr2"}
 \* in argv a graph argument appears as the placeholder "@name"; its tokens are GraphSpec[name].spec
@@ -115,7 +119,10 @@ GraphFamilyCmds ==
   \cup {Cmd(<<"ec">> \o GTok(g), Call("EvenColoringFormula", <<Gr(g)>>)) : g \in {"g4", "e2", "t33"}}
   \cup {Cmd(<<"domset">> \o Opt(a, "--alternative") \o <<S(d)>> \o GTok(g), Call("DominatingSet", <<Gr(g), I(d), Bo(a)>>)) :
             a \in B2, d \in 1..2, g \in Simple}
-  \cup {Cmd(<<"tiling">> \o GTok(g), Call("Tiling", <<Gr(g)>>)) : g \in Simple}
+  \cup {Cmd(<<"tiling">> \o GTok(g), Call("Tiling", <<Gr(g)>>)) : g \in Simple \cup Modified}
+  \cup {Cmd(<<"kcolor", "2">> \o GTok(g), Call("GraphColoringFormula", <<Gr(g), I(2)>>)) : g \in Modified}
+  \cup {Cmd(<<"tseitin", "first">> \o GTok(g), Call("TseitinFormula", <<Gr(g), Il(Charges("first", GraphSpec[g].n))>>)) : g \in Modified}
+  \cup {Cmd(<<"php">> \o GTok("bpa"), Call("GraphPigeonholePrinciple", <<Gr("bpa"), Bo(FALSE), Bo(FALSE)>>))}
   \cup {Cmd(<<"iso">> \o GTok(g), Call("GraphAutomorphism", <<Gr(g)>>)) : g \in Simple}
   \cup {Cmd(<<"iso">> \o GTok(g) \o <<"-e">> \o GTok(h), Call("GraphIsomorphism", <<Gr(g), Gr(h)>>)) :
             g \in Simple, h \in Simple}
